@@ -101,8 +101,12 @@ class UpdateReferences:
 
   def __update_field_references(self, oldref, newref, possible_fieldnames):
     for fn in possible_fieldnames:
-      self.__update_reference_in_field(fn, oldref,
-          newref if newref else str(oldref))
+      if newref is None and isinstance(self.get(fn), list):
+        # a removed line is dropped from a list of references
+        self.__update_reference_in_field(fn, oldref, None)
+      else:
+        self.__update_reference_in_field(fn, oldref,
+            newref if newref else str(oldref))
 
   def __update_nonfield_references(self, oldref, newref, possible_keys):
     for key in possible_keys:
